@@ -18,6 +18,35 @@ Local Open Scope nat_scope.
 
 Notation "a # b" := (Qmake a b) (at level 55, no associativity) : Q_scope.
 
+(* ------------------------------------------------------------------ executable carrier
+   Geom.Vec.Q_carrier with faster sin / cos: the prelude's Taylor sums keep exact rationals whose size grows
+   by ~400 bits per term (gcd-bound, minutes per call); here 24 terms (|x| <= pi: remainder < 1e-37), every term and partial sum is truncated to
+   96 binary digits (total error < 2^-88, far below the 1e-9 tolerance of the cases that use them).
+   The generated definitions are carrier-generic, so this instance runs the very same constants. *)
+Definition Qtr (q : Q) : Q := (Qnum q * 2 ^ 96 / Zpos (Qden q)) # (2 ^ 96).   (* 96 binary digits, no gcd *)
+Fixpoint Qtaylor_t (fuel : nat) (x2 term : Q) (k : Z) (acc : Q) : Q :=
+  match fuel with
+  | O => acc
+  | S f =>
+      let t := Qtr (- term * x2 / inject_Z ((k + 1) * (k + 2))) in
+      Qtaylor_t f x2 t (k + 2) (Qtr (acc + t))
+  end.
+Definition Qcos_t (x : Q) : Q := let x := Qtr x in Qtaylor_t 24 (Qtr (x * x)) 1 0 1.
+Definition Qsin_t (x : Q) : Q := let x := Qtr x in Qtaylor_t 24 (Qtr (x * x)) x 1 x.
+(* sqrt on a 200-bit truncation of the argument (keeps Z.sqrt's operand small) *)
+Definition Qsqrt_t (x : Q) : Q := Qsqrt (Qtr x).
+
+Definition Qx_carrier : Carrier Q := {|
+  c0 := 0%Q; c1 := 1%Q;
+  cadd := Qplus; cmul := Qmult; csub := Qminus; copp := Qopp; cdiv := Qdiv;
+  csqrt := Qsqrt_t; cabs := Qabs; cmax := Qmaxb; cmin := Qminb;
+  csin := Qsin_t; ccos := Qcos_t; cpi := Qpi;
+  cltb := Qltb; cleb := Qle_bool; ceqb := Qeq_bool;
+  cofZ := inject_Z;
+  cofQ := fun n d => Qmake n d
+|}.
+#[export] Existing Instance Qx_carrier | 0.
+
 (* ------------------------------------------------------------------ conversions *)
 Definition qn (l : list Q) (i : nat) : Q := nth i l 0%Q.
 Definition v3_of (l : list Q) : vec3 Q := mkV3 (qn l 0) (qn l 1) (qn l 2).
